@@ -507,6 +507,11 @@ func (p *proxyConn) writeResponse(res *http.Response) error {
 			err = res.Write(p.brw)
 		}
 	}
+	// Shutdown that began while this response was being produced: the connection must not go back to
+	// waiting for another request. It is sampled before the final flush, a shutdown requested by a client
+	// after it has seen the response leaves the (then idle) connection alone.
+	closingBeforeFlush := p.closing()
+
 	if err != nil {
 		p.brw.Flush() // flush any remaining data
 	} else {
@@ -532,7 +537,7 @@ func (p *proxyConn) writeResponse(res *http.Response) error {
 		return errClose
 	}
 
-	if res.Close {
+	if res.Close || closingBeforeFlush {
 		log.Debug(ctx, "closing connection")
 		return errClose
 	}
